@@ -95,6 +95,11 @@ def run(ctx, rep):
     for fn, trait, prim in (("write_bypass", WTRAIT, "put_bypass"), ("read_bypass", RTRAIT, "get_bypass")):
         b = body(fn)
         cs = _calls(b, lambda n, t: t["callee"].get("trait") in (WTRAIT, RTRAIT))
+        if not cs:
+            # the loop body may live in a closure handed to fold / for_each over the same range
+            for cn, cb in sorted(F.bodies.items()):
+                if cn.startswith(b.name + "::{closure#"):
+                    cs = cs + _calls(cb, lambda n, t: t["callee"].get("trait") in (WTRAIT, RTRAIT))
         rng = [flow.describe(b, {"l": s["p"]["l"], "p": []}) for bb in b.normal_blocks() for s in b.stmts(bb)
                if s["k"] == "assign" and s["r"]["k"] == "agg" and s["r"].get("adt") == "std::ops::Range"]
         rep.add("B1", "bypass-loop:" + fn, [c[1] for c in cs] == [prim] and rng == ["Range{K0, arg<u8>}"], b.where(cs[0][0]) if cs else "",
@@ -285,6 +290,17 @@ def b4(F, rep):
                 # shift happens before the bit is inserted in each iteration
                 ok_rb = len(init) == 1 and (rb.dominates(shl[0], gbb) or shl[0] == gbb) and gbb in rb.reachable_from(shl[0]) and bor[0] in rb.reachable_from(gbb)
             why = "accumulator steps %s" % [d2 for _, d2 in steps]
+    if not ok_rb and not gb:
+        # fold form: (0..n).fold(0, |acc, _| (acc << 1) | bit)
+        fd = _calls(rb, lambda n, t: n.endswith("Iterator::fold"))
+        cl = [cb for cn, cb in sorted(F.bodies.items()) if cn.startswith(rb.name + "::{closure#")]
+        if len(fd) == 1 and len(cl) == 1 and len(fd[0][2]["args"]) == 3:
+            a0, a1 = flow.describe(rb, fd[0][2]["args"][0]), flow.describe(rb, fd[0][2]["args"][1])
+            rets = [flow.describe_rvalue(cl[0], s["r"], names=False) for x in cl[0].normal_blocks() for s in cl[0].stmts(x)
+                    if s.get("k") == "assign" and s["p"]["l"] == 0 and not s["p"]["p"]]
+            ok_rb = (a0 == "Range{K0, arg<u8>}" and a1 == "K0" and len(rets) == 1 and
+                     re.match(r"^BitOr\(Shl\(arg<u32>(#0)?, K1\), (\w+::)*(cast|from|into)?\(?unwrap\(get_bypass\(.*\)\)\)?\)$", rets[0]) is not None)
+            why = "fold(%s, %s, |acc, _| %s)" % (a0, a1, rets)
     rep.add("B4", "fixed-reader:shift-then-or", ok_rb, "%s:%s" % (rb.file, rb.line), why)
 
 
@@ -333,7 +349,7 @@ def b6(F, rep):
     n = 0
     seen = set()
     for (fn, kind, ordn), s in sorted(sites.items()):
-        short = fn.replace("preflate_rs::", "")
+        short = re.sub(r"::\{closure#\d+\}", "", fn.replace("preflate_rs::", ""))
         if not re.match(r"^<?(cabac_codec|statistical_codec)::|^<cabac_codec|^<preflate_rs::cabac_codec", short) and "cabac_codec::" not in short and "statistical_codec::" not in short:
             continue
         if (short, kind) in seen:
